@@ -185,8 +185,11 @@ def sh(cmd, env=None, cwd=None, timeout=900):
 
 
 def run_check(pid, copy_dir, out_dir, ncpu):
-    env = dict(os.environ, VERIF_REPO=str(copy_dir), VERIF_OUT=str(out_dir), VERIF_CAMPAIGN_NO_PROOF="1", VERIF_NCPU=str(ncpu), PYTHONHASHSEED="0")
-    p = sh([str(VERIF / "check"), pid, "--tier", "quick"], env=env, cwd=str(VERIF), timeout=600)
+    env = dict(os.environ, VERIF_REPO=str(copy_dir), VERIF_OUT=str(out_dir), VERIF_CAMPAIGN_NO_PROOF="1", VERIF_NCPU=str(ncpu), PYTHONHASHSEED="0",
+               VERIF_BUDGET_S="300")
+    p = sh([str(VERIF / "check"), pid, "--tier", "quick"], env=env, cwd=str(VERIF), timeout=900)
+    if p.returncode == 124:
+        return dict(check=pid, kind="hang", what="the check itself did not return within 900 s")
     lines = [l for l in p.stdout.split("\n") if l.startswith("VIOLATION")]
     if not lines:
         return None
@@ -259,10 +262,14 @@ def main():
     ap.add_argument("--seed", type=int, default=1)
     ap.add_argument("--files", default=None)
     ap.add_argument("--out", default=str(VERIF / "mutation" / "report.json"))
+    ap.add_argument("--survivors-of", default=None, help="re-run only the mutants an earlier report lists as survivors")
     a = ap.parse_args()
     fmap = file_map()
     files = a.files.split(",") if a.files else sorted(f for f in fmap if not f.endswith(SKIP_FILES))
     muts = enumerate_mutants(files)
+    if a.survivors_of:
+        keep = {(r["file"], r["line"], r["kind"]) for r in json.loads(Path(a.survivors_of).read_text())["survivors"]}
+        muts = [m for m in muts if (m["file"], m["line"], m["kind"]) in keep]
     rng = random.Random(a.seed)
     rng.shuffle(muts)
     total = len(muts)
